@@ -1,5 +1,6 @@
 -- Runs the same case file as the extracted model against the real bint module
 -- (lualib/nelua/utils/bn.lua -> thirdparty/bint.lua).  One result line per case.
+-- Operands: bints as unsigned hex (< 2^160), Lua integers as signed hex, strings as hex bytes.
 local bn = require 'nelua.utils.bn'
 local SIZE = bn.bits // 32
 
@@ -14,6 +15,7 @@ local function limbs_of_hex(s)
 end
 
 local function hex_of_limbs(x)
+  if x == nil then return 'nil' end
   local t = {}
   for i=1,SIZE do t[i] = string.format('%x', x[i]) end
   return table.concat(t, ',')
@@ -35,8 +37,16 @@ local function hex_of_int(v)
   return string.format('%x', v)
 end
 
-local function clone(x) return bn.tobint(x, true) end
+local function bytes_of_hex(s)
+  if s == '-' then return '' end
+  return (s:gsub('..', function(h) return string.char(tonumber(h, 16)) end))
+end
 
+local function clone(x) return bn.tobint(x, true) end
+local function pair(q, r) return hex_of_limbs(q) .. ' ' .. hex_of_limbs(r) end
+local function str(s) if s == nil then return 'nil' end return s end
+
+-- bint operands
 local ops = {
   add = function(a,b) return hex_of_limbs(a + b) end,
   sub = function(a,b) return hex_of_limbs(a - b) end,
@@ -58,26 +68,103 @@ local ops = {
   isneg = function(a) return tostring(bn.isneg(a)) end,
   touinteger = function(a) return hex_of_int(bn.touinteger(a)) end,
   tointeger = function(a) return hex_of_int(bn.tointeger(a)) end,
+  iszero = function(a) return tostring(bn.iszero(a)) end,
+  isone = function(a) return tostring(bn.isone(a)) end,
+  isminusone = function(a) return tostring(bn.isminusone(a)) end,
+  iseven = function(a) return tostring(bn.iseven(a)) end,
+  isodd = function(a) return tostring(bn.isodd(a)) end,
+  mininteger = function() return hex_of_limbs(bn.mininteger()) end,
+  maxinteger = function() return hex_of_limbs(bn.maxinteger()) end,
+  abs = function(a) return hex_of_limbs(bn.abs(a)) end,
+  max = function(a,b) return hex_of_limbs(bn.max(a,b)) end,
+  min = function(a,b) return hex_of_limbs(bn.min(a,b)) end,
+  udivmod = function(a,b) return pair(bn.udivmod(a,b)) end,
+  udiv = function(a,b) return hex_of_limbs(bn.udiv(a,b)) end,
+  umod = function(a,b) return hex_of_limbs(bn.umod(a,b)) end,
+  tdivmod = function(a,b) return pair(bn.tdivmod(a,b)) end,
+  idivmod = function(a,b) return pair(bn.idivmod(a,b)) end,
+  idiv = function(a,b) return hex_of_limbs((a // b)) end,
+  mod = function(a,b) return hex_of_limbs(a % b) end,
+  ipow = function(a,b) return hex_of_limbs(bn.ipow(a,b)) end,
+  upowmod = function(a,b,c) return hex_of_limbs(bn.upowmod(a,b,c)) end,
+  compress = function(a)
+    local r = bn.compress(a)
+    if math.type(r) == 'integer' then return 'i ' .. hex_of_int(r) end
+    return 'b ' .. hex_of_limbs(r)
+  end,
+  todecint = function(a) return str(bn.todecint(a)) end,
+}
+-- bint, Lua integer
+local opsi = {
+  shl = function(a,n) return hex_of_limbs(a << n) end,
+  shr = function(a,n) return hex_of_limbs(a >> n) end,
+  bwrap = function(a,n) return hex_of_limbs(bn.bwrap(a,n)) end,
+  brol = function(a,n) return hex_of_limbs(bn.brol(a,n)) end,
+  bror = function(a,n) return hex_of_limbs(bn.bror(a,n)) end,
+  shlwords = function(a,n) return hex_of_limbs(clone(a):_shlwords(n)) end,
+  shrwords = function(a,n) return hex_of_limbs(clone(a):_shrwords(n)) end,
 }
 local intops = {
   fromuinteger = function(i) return hex_of_limbs(bn.fromuinteger(i)) end,
   frominteger = function(i) return hex_of_limbs(bn.frominteger(i)) end,
 }
 
+local function flag3(s)
+  if s == 't' then return true elseif s == 'f' then return false end
+  return nil
+end
+
+local function classify(msg)
+  msg = tostring(msg)
+  if msg:find('divide by zero', 1, true) or msg:find("perform 'n//0'", 1, true) or msg:find("perform 'n%%0'", 1, true) then
+    return '!err divzero'
+  elseif msg:find('division overflow', 1, true) then
+    return '!err overflow'
+  elseif msg:find('nil value', 1, true) then
+    return '!err nil'
+  end
+  return '!err other: ' .. msg:gsub('\n', ' ')
+end
+
+local function run(w)
+  local op = w[1]
+  if intops[op] then
+    return intops[op](int_of_hex(w[2]))
+  elseif opsi[op] then
+    local n = (op == 'shlwords' or op == 'shrwords') and tonumber(w[3]) or int_of_hex(w[3])
+    return opsi[op](limbs_of_hex(w[2]), n)
+  elseif ops[op] then
+    return ops[op](w[2] and limbs_of_hex(w[2]), w[3] and limbs_of_hex(w[3]), w[4] and limbs_of_hex(w[4]))
+  elseif op == 'tobase' then
+    return str(bn.tobase(limbs_of_hex(w[2]), int_of_hex(w[3]), flag3(w[4])))
+  elseif op == 'frombase' then
+    return hex_of_limbs(bn.frombase(bytes_of_hex(w[2]), int_of_hex(w[3])))
+  elseif op == 'from_bin' then
+    local n, base = bn.from((w[2] == 't' and '-' or '') .. '0b' .. bytes_of_hex(w[3]))
+    assert(base == 2)
+    return hex_of_limbs(n)
+  elseif op == 'from_hex' then
+    local n, base = bn.from((w[2] == 't' and '-' or '') .. '0x' .. bytes_of_hex(w[3]))
+    assert(base == 16)
+    return hex_of_limbs(n)
+  elseif op == 'from_dec' then
+    local n, base = bn.from(bytes_of_hex(w[2]))
+    assert(base == 10 and bn.isbint(n))
+    return hex_of_limbs(n)
+  elseif op == 'tohexint' then
+    return str(bn.tohexint(limbs_of_hex(w[2]), w[3] ~= 'nil' and int_of_hex(w[3]) or nil))
+  elseif op == 'tobinint' then
+    return str(bn.tobinint(limbs_of_hex(w[2]), w[3] ~= 'nil' and int_of_hex(w[3]) or nil))
+  end
+  return '?unknown-op'
+end
+
 for line in io.lines() do
   local w = {}
   for tok in line:gmatch('%S+') do w[#w+1] = tok end
   if #w > 0 then
-    local op = w[1]
-    local ok, res
-    if intops[op] then
-      ok, res = pcall(intops[op], int_of_hex(w[2]))
-    elseif ops[op] then
-      ok, res = pcall(ops[op], limbs_of_hex(w[2]), w[3] and limbs_of_hex(w[3]))
-    else
-      ok, res = true, '?unknown-op'
-    end
-    if not ok then res = '!err ' .. tostring(res):gsub('\n', ' ') end
+    local ok, res = pcall(run, w)
+    if not ok then res = classify(res) end
     io.write(res, '\n')
   end
 end
